@@ -38,6 +38,10 @@ def run(tier, seed):
     H.import_opfython()
     scns = scenarios(rep, tier, seed)
     out, items = F.run_items(rep, scns, PIDS, "c01")
+    lt = S.learn_traces(__import__("random").Random(seed + 4242), 300 if tier == "thorough" else 50)
+    if lt:
+        S.judge(rep, lt, "c01learn", PIDS, want_m=False)
+        rep.cov["forests_left_by_learn_judged"] = len(lt)
     rep.cov["exhaustive"] = False
     rep.cov["rule"] = "design: all weight matrices/labelings within the cfg bounds; replay: each TLC initial state run through SupervisedOPF.fit; float: random clustered/lattice/duplicate data over symmetric metrics and pre-computed matrices with permuted index arrays"
     rep.assumptions = ["TLC", "order-embedding of floats is exact (harness Ranker)", "float samples whose distance matrix is not bit-symmetric are skipped, not passed"]
